@@ -24,12 +24,14 @@ type J = map[string]interface{}
 
 func main() {
 	var (
-		seed    = flag.Int64("seed", 1, "seed")
-		rounds  = flag.Int("rounds", 100, "number of rounds")
-		out     = flag.String("out", "conc.ndjson", "output")
-		watch   = flag.Duration("watchdog", 20*time.Second, "a round that takes longer is a deadlock")
-		maxG    = flag.Int("clients", 4, "maximum number of client goroutines")
-		perG    = flag.Int("ops", 3, "operations per client")
+		seed   = flag.Int64("seed", 1, "seed")
+		rounds = flag.Int("rounds", 100, "number of rounds")
+		out    = flag.String("out", "conc.ndjson", "output")
+		watch  = flag.Duration("watchdog", 20*time.Second, "a round that takes longer is a deadlock")
+		maxG   = flag.Int("clients", 4, "maximum number of client goroutines")
+		perG   = flag.Int("ops", 3, "operations per client")
+		via    = flag.String("via", "", "\"\" (core.Location) | system | http")
+		layout = flag.String("layout", "shared", "shared: all clients use location A | own: client g owns location L<g> | both: alternate")
 	)
 	flag.Parse()
 	hooks := world.InstallYieldHook(*seed)
@@ -41,7 +43,22 @@ func main() {
 		ctx := core.NewContext("verif")
 		ctx.Verbosity = core.NOTHING
 		ms, _ := core.NewMemStorage(ctx)
-		w, err := world.NewWorld(world.Config{State: state, Store: "mem", MaxFacts: 1000, Locs: []string{"A"}}, rec, ms)
+		lay := *layout
+		if lay == "both" {
+			lay = []string{"shared", "own"}[(round/2)%2]
+		}
+		locs := []string{"A"}
+		if lay == "own" {
+			locs = []string{}
+			for g := 1; g <= *maxG; g++ {
+				locs = append(locs, fmt.Sprintf("L%d", g))
+			}
+		}
+		cfg := world.Config{State: state, Store: "mem", MaxFacts: 1000, Locs: locs, Via: *via}
+		if *via != "" {
+			cfg.Sys.TTL = []string{"forever", "never", "1ms"}[(round/4)%3]
+		}
+		w, err := world.NewWorld(cfg, rec, ms)
 		if err != nil {
 			fmt.Fprintln(os.Stderr, err)
 			os.Exit(2)
@@ -51,7 +68,11 @@ func main() {
 				"EnableRule": 6, "ProcessEvent": 18}}
 		// a short sequential prefix so that rounds do not all start from the empty location
 		pg := &world.Gen{R: rand.New(rand.NewSource(r.Int63())), P: prof, T: rec.T}
-		events := []J{{"ev": "round", "state": state, "round": round}}
+		locNames := []interface{}{}
+		for _, n := range locs {
+			locNames = append(locNames, n)
+		}
+		events := []J{{"ev": "round", "state": state, "round": round, "locs": locNames, "via": *via, "layout": lay, "ttl": cfg.Sys.TTL}}
 		seq := 0
 		var mu sync.Mutex
 		stamp := func(ev J) {
@@ -61,7 +82,7 @@ func main() {
 			events = append(events, ev)
 			mu.Unlock()
 		}
-		for i, n := 0, r.Intn(4); i < n; i++ {
+		for i, n := 0, r.Intn(4); i < n && *via == ""; i++ {
 			op := pg.Next()
 			if op.Id == "" && (op.Op == "AddFact" || op.Op == "AddRule") {
 				op.Id = "x1"
@@ -86,6 +107,12 @@ func main() {
 				op := gen.Next()
 				if op.Id == "" && (op.Op == "AddFact" || op.Op == "AddRule") {
 					op.Id = "x2"
+				}
+				if lay == "own" {
+					op.Loc = fmt.Sprintf("L%d", g)
+				}
+				if *via != "" && (op.Op == "GetRule" || op.Op == "SearchRules") {
+					op.Op, op.Val = "GetFact", nil
 				}
 				ops = append(ops, op)
 			}
@@ -114,27 +141,28 @@ func main() {
 			dump(*out, rec, append(all, events...))
 			os.Exit(3)
 		}
-		// final state: what the location returns for every id storage or memory may hold, and what storage holds
+		// final state: what every location returns for every id storage or memory may hold, and what storage holds
 		mem := J{}
 		disk := w.DiskIds()
-		ids := map[string]bool{"x1": true, "x2": true, "!x1.disabled": true, "!x2.disabled": true}
-		for _, id := range disk["A"].([]string) {
-			ids[id] = true
-		}
-		keys := []string{}
-		for id := range ids {
-			keys = append(keys, id)
-		}
-		sort.Strings(keys)
-		for _, id := range keys {
-			m, err := w.Locs["A"].GetFact(ctx, id)
-			if err == nil {
-				bs, _ := json.Marshal(map[string]interface{}(m))
-				var x interface{}
-				json.Unmarshal(bs, &x)
-				rec.T.NoteString(id)
-				mem[id] = rec.T.Encode(x)
+		for _, ln := range locs {
+			lm := J{}
+			ids := map[string]bool{"x1": true, "x2": true, "!x1.disabled": true, "!x2.disabled": true}
+			for _, id := range disk[ln].([]string) {
+				ids[id] = true
 			}
+			keys := []string{}
+			for id := range ids {
+				keys = append(keys, id)
+			}
+			sort.Strings(keys)
+			for _, id := range keys {
+				res, _ := w.Exec(world.Op{Op: "GetFact", Loc: ln, Id: id}, false)
+				if res.C == "ok" {
+					rec.T.NoteString(id)
+					lm[id] = rec.T.Encode(res.Val)
+				}
+			}
+			mem[ln] = lm
 		}
 		mu.Lock()
 		seq++
